@@ -51,18 +51,8 @@ object)`. After an id-keeping block copy the two differ — a source *object* of
 carries an id that also occurs in this block. `contAppend20` adds that test; when it accepts, it is
 `contAppend` (`Props/C20.contAppend20_refines`), so every theorem about appended links carries over. -/
 
-/-- keys of a section / source subtree, breadth first (`util/find.py`, unlimited) -/
-def bfsKeys (g : Graph) (sub : String) : Nat → List Nat → List Nat → List Nat
-  | 0, _, acc => acc
-  | _ + 1, [], acc => acc
-  | fuel + 1, k :: queue, acc =>
-    let kids := match g.child? k sub with
-      | some c => (g.links c).map (·.2)
-      | none => []
-    bfsKeys g sub fuel (queue ++ kids) (acc ++ [k])
-
-def subtreeKeys (g : Graph) (sub : String) (k : Nat) : List Nat :=
-  bfsKeys g sub (g.nodes.length * g.nodes.length + 1) [k] []
+-- `bfsKeys` / `subtreeKeys` (keys of a section / source subtree, breadth first) live in `Store/Api.lean`
+-- since deletion is by object.
 
 /-- is the source *object* `k` somewhere in the source tree of block `b`? -/
 def inSourceTreeObj (g : Graph) (b : Nat) (k : Nat) : Bool :=
